@@ -81,6 +81,25 @@ class P(Process):
                 'r': {'q_' + self.name: 1}}
 
 
+class UnitsProc(Process):
+    """a variable with declared units (updated in another compatible unit)
+    and a variable with a custom serializer, both emitted"""
+
+    def ports_schema(self):
+        from vivarium.library.units import units
+        return {'u': {'mass': {'_default': 1.0 * units.g, '_units': units.g,
+                               '_emit': True},
+                      'tag': {'_default': 3, '_emit': True,
+                              '_serializer': CTX['tag_serializer']}}}
+
+    def calculate_timestep(self, states):
+        return 1
+
+    def next_update(self, timestep, states):
+        from vivarium.library.units import units
+        return {'u': {'mass': 500.0 * units.mg, 'tag': 1}}
+
+
 class Last(Step):
     """Runs once per phase: records batch times; writes w := x_p0 + 1."""
 
@@ -117,7 +136,7 @@ def jobs(tier):
                             flavor=flavor, ops=[k] if q else [k, None],
                             budget_s=100 if q else 900))
     for es in (1, 2):
-        out.append(dict(name='ram-schema-es%d' % es, via='schema',
+        out.append(dict(name='ram-schema-es%d' % es, via='schema', units=True,
                         emitter='ram', B=2, IVS=[3], es=es, nflags=1,
                         budget_s=100 if q else 600, dlo=0, dhi=1))
     return out
@@ -156,6 +175,18 @@ def run_engine(ctx, cfg, flags, es, ivs):
         kwargs['store_schema'] = {'s': {'_emit': flags[('s', 'x_p0')]},
                                   'r': {'_emit': flags[('r', 'q_p0')]}}
     emitter = {'type': 'vsym_rec' if cfg['emitter'] == 'rec' else 'vsym_ram'}
+    extra_topology = {}
+    if cfg.get('units'):
+        from vivarium.core.registry import Serializer
+
+        class TagSerializer(Serializer):
+            python_type = None
+
+            def serialize(self, data):
+                return 'tag<%d>' % data
+        CTX['tag_serializer'] = TagSerializer()
+        procs['up'] = UnitsProc({'name': 'up'})
+        extra_topology['up'] = {'u': ('u',)}
     # the initial emit happens inside the constructor: give the hook access
     holder = {}
     CTX['pending_state'] = lambda: holder.get('state')
@@ -168,7 +199,7 @@ def run_engine(ctx, cfg, flags, es, ivs):
         e, processes=procs, steps={'last': Last({'emit_w': flags[('s', 'w')]})},
         flow={'last': []},
         topology={**{n: {'s': ('s',), 'r': ('r',)} for n in names},
-                  'last': {'s': ('s',)}},
+                  'last': {'s': ('s',)}, **extra_topology},
         emitter=emitter, emit_step=es, display_info=False, **kwargs)
     for j, iv in enumerate(ivs):
         e.run_for(iv, force_complete=(j == len(ivs) - 1))
@@ -293,10 +324,26 @@ def body(ctx, cfg):
     for r in hist:
         row = stubs.leaves({k: v for k, v in r['data'].items() if k != 'time'})
         exp = {p: v for p, v in r['snap'].items() if flags.get(p, False)}
+        if cfg.get('units'):
+            exp[('u', 'mass')] = r['snap'][('u', 'mass')]
+            exp[('u', 'tag')] = r['snap'][('u', 'tag')]
         content.append(set(row) == set(exp))
         content.append(EQ(r['data']['time'], r['g']))
         for p in row:
-            if p in exp:
+            if p == ('u', 'mass'):
+                # a quantity is emitted through the units serializer, in the
+                # declared units: the string reads back as the stored value
+                from vivarium.core.serialize import deserialize_value
+                from vivarium.library.units import units
+                back = deserialize_value(row[p])
+                q = exp[p]
+                content.append(isinstance(row[p], str) and
+                               row[p].startswith('!units[') and
+                               back.units == units.g and q.units == units.g
+                               and abs(back.magnitude - q.magnitude) < 1e-9)
+            elif p == ('u', 'tag'):
+                content.append(row[p] == 'tag<%d>' % exp[p])
+            elif p in exp:
                 content.append(EQ(row[p], exp[p]))
     ctx.claim('C12.content', AND(content), sig='content', info=info)
     for r in hist:
@@ -338,6 +385,9 @@ def body(ctx, cfg):
             t = int(t)
             got = stubs.leaves(data.get(t, {'missing': True}))
             exp = {p: v for p, v in r['snap'].items() if flags.get(p, False)}
+            if cfg.get('units'):
+                exp[('u', 'mass')] = '!units[%s]' % str(r['snap'][('u', 'mass')])
+                exp[('u', 'tag')] = 'tag<%d>' % r['snap'][('u', 'tag')]
             ok.append(set(got) == set(exp))
             for p in got:
                 if p in exp:
